@@ -125,6 +125,27 @@ def oracle_recover(p):
     return out
 
 
+def oracle_overfit(p):
+    """noiseless sum of K exponentials fitted with order p > K: the minimum is 0 and must be returned as such (finite)"""
+    x = np.asarray(p["x"])
+    order = p["order"]
+    out = []
+    en = float(np.sum(np.abs(x) ** 2))
+    for name in ("arcovar", "modcovar"):
+        a, e = _fn(name)(x, order)
+        a = c(a)
+        if not np.isfinite(e) or abs(e) > 1e-7 * en:
+            out.append("%s on a noiseless sum of %d exponentials with order %d returns error %r, not the minimum 0 (N=%d)" % (
+                name, p["K"], order, e, len(x)))
+        if not np.all(np.isfinite(a)):
+            out.append("%s returns non-finite coefficients on rank-deficient noiseless data" % name)
+        else:
+            ef, eb = _resid(x.astype(complex), a, order)
+            if np.sum(np.abs(ef) ** 2) > 1e-7 * en:
+                out.append("%s coefficients do not reach the zero minimum on noiseless data (order %d > K=%d)" % (name, order, p["K"]))
+    return out
+
+
 def _key(p):
     x = np.asarray(p["x"])
     return "%s|%d|%d|%s|%d" % (p.get("fn"), len(x), p["order"], np.iscomplexobj(x), hash(x.tobytes()) & 0xFFFFFF)
@@ -140,6 +161,7 @@ KINDS = {
     "fitm": {"impl": impl_fit, "model": model_fit, "rtol": 1e-5, "atol": 1e-9, "key": _key, "tags": _tags,
              "nontrivial": lambda p: p["order"] >= 2},
     "laws": {"oracle": oracle_fit, "key": _key, "tags": _tags, "nontrivial": lambda p: p["order"] >= 2},
+    "overfit": {"oracle": oracle_overfit, "key": _key, "tags": lambda p: ["overfit:K=%d,p=%d" % (p["K"], p["order"])]},
     "recover": {"oracle": oracle_recover, "key": _key, "tags": lambda p: ["recover:%d" % p["order"]]},
 }
 
@@ -183,3 +205,13 @@ def gen(rng, nrng, tier):
         t = np.arange(N)
         x = sum((1 + j) * np.exp(2j * np.pi * fj * t + 1j * j) for j, fj in enumerate(f))
         yield ("recover", {"x": x, "order": p, "freqs": f})
+        # the same signal fitted with a larger order (rank-deficient), N - order > order and N - order == order
+        for extra in (1, 3):
+            po = p + extra
+            for NN in (2 * po, 2 * po + 5):
+                tt = np.arange(NN)
+                xx = sum((1 + j) * np.exp(2j * np.pi * fj * tt + 1j * j) for j, fj in enumerate(f))
+                yield ("overfit", {"x": xx, "order": po, "K": p})
+        if i % 3 == 0:
+            tt = np.arange(24)
+            yield ("overfit", {"x": np.cos(2 * np.pi * 0.2 * tt + 0.3), "order": 4, "K": 2})
